@@ -58,6 +58,14 @@ def run(ids):
             "patch_rebased": os.path.exists(os.path.join(d, "patch.orig.diff")),
             "checks": {"verdict": verdict, "per_check": out, "command": "bin/try_patch.py seeded/%s/patch.diff %s" % (sid, " ".join(props))},
         }
+        rp = os.path.join(d, "reconfirm.log")
+        if os.path.exists(rp):
+            t = open(rp).read()
+            m2 = re.search(r"RESULT \S+ clean_ok=(\d+) mut_fail=(\d+)", t)
+            h = re.search(r"HEAD (\w+)", t)
+            meta["reconfirmed_at_repo_head"] = {"commit": h.group(1) if h else None, "demo_passes_on_head": bool(m2 and m2.group(1) != "0"),
+                                                "demo_fails_with_patch": bool(m2 and m2.group(2) != "0"),
+                                                "how": "bin/reconfirm_head.sh (fresh worktree of /repo HEAD, private network namespace)", "log": "reconfirm.log"}
         json.dump(meta, open(os.path.join(d, "meta.json"), "w"), indent=1)
         results[sid] = {"verdict": verdict, "by": {k: v["rules"][:3] for k, v in out.items() if v["rc"] == 1}}
         print(sid, verdict, {k: v["rc"] for k, v in out.items()})
